@@ -811,7 +811,86 @@ pub fn one_history(rng: &mut Rng, sink: &mut Sink, n_ops: usize, case: usize) {
     }
 }
 
+/// Thorough tier: every source element with at most two normal children over a small alphabet
+/// of kinds, every admissible set of declarations / attributes, under every wrapper (none, a
+/// parent declaring a prefix, a default namespace two levels up, a document), cloned both ways
+/// with consolidation on and — when it has adjacent text — off and switched back on.
+fn exhaustive(sink: &mut Sink) {
+    let e = |n: usize, k: Vec<GTree>| GTree::new(GValue::Element(n), k);
+    let ns = |p: usize, n: usize| GTree::leaf(GValue::Namespace(p, n));
+    let at = |n: usize, v: &str| GTree::leaf(GValue::Attribute(n, v.into()));
+    let normal: Vec<GTree> = vec![
+        GTree::leaf(GValue::Text("x".into())),
+        GTree::leaf(GValue::Text("".into())),
+        GTree::leaf(GValue::Comment("c".into())),
+        GTree::leaf(GValue::PI(17, None)),
+        e(2, vec![]),
+        e(7, vec![at(6, "w")]),
+    ];
+    let ns_sets: Vec<Vec<GTree>> = vec![vec![], vec![ns(2, NS_A)], vec![ns(0, NS_A)], vec![ns(0, 0)], vec![ns(2, NS_A), ns(0, NS_A)], vec![ns(2, NS_B), ns(0, 0)]];
+    let attr_sets: Vec<Vec<GTree>> = vec![vec![], vec![at(2, "v")], vec![at(6, "v")], vec![at(0, "preserve")], vec![at(2, ""), at(6, "v")]];
+    let mut normal_seqs: Vec<Vec<GTree>> = vec![vec![]];
+    for a in &normal {
+        normal_seqs.push(vec![a.clone()]);
+        for b in &normal {
+            normal_seqs.push(vec![a.clone(), b.clone()]);
+        }
+    }
+    let mut n_cases = 0u64;
+    for name in [2usize, 6] {
+        for nss in &ns_sets {
+            for ats in &attr_sets {
+                for seq in &normal_seqs {
+                    let mut kids = nss.clone();
+                    kids.extend(ats.iter().cloned());
+                    kids.extend(seq.iter().cloned());
+                    let src = e(name, kids);
+                    let adjacent = has_adjacent(&src);
+                    for wrapper in 0..4 {
+                        let tree = match wrapper {
+                            0 => src.clone(),
+                            1 => e(3, vec![ns(3, NS_A), GTree::leaf(GValue::Text("y".into())), src.clone()]),
+                            2 => e(6, vec![ns(0, NS_A), ns(4, NS_A), e(7, vec![src.clone()])]),
+                            _ => GTree::new(GValue::Document, vec![src.clone()]),
+                        };
+                        // path of the source inside the wrapper
+                        let variants: &[u8] = if adjacent { &[0, 1] } else { &[0] };
+                        for &variant in variants {
+                            n_cases += 1;
+                            let mut s = Session::new();
+                            s.exec(sink, "reset");
+                            let vw = s.vocab.wire();
+                            s.history.push(vw.clone());
+                            sink.emit(vw, "ok".into());
+                            if adjacent {
+                                s.exec(sink, "cons 0");
+                            }
+                            build_ops(&mut s, sink, &tree);
+                            if variant == 1 {
+                                s.exec(sink, "cons 1");
+                            }
+                            let fragments = HashSet::new();
+                            // the source is the unique element whose read-back equals `src`
+                            let live = s.live();
+                            let src_label = live.iter().copied().rev().find(|&l| s.xot.is_element(s.nodes[l]) && read_tree(&s.xot, &mut s.vocab, s.nodes[l]) == src);
+                            let Some(l) = src_label else { continue };
+                            if do_clone(&mut s, sink, l, false, &fragments).is_none() {
+                                continue;
+                            }
+                            do_clone(&mut s, sink, l, true, &fragments);
+                        }
+                    }
+                }
+            }
+        }
+    }
+    sink.stat_n("exhaustive.cases", n_cases);
+}
+
 pub fn run(seed: u64, count: usize, tier: &str, sink: &mut Sink) {
+    if tier == "thorough" {
+        exhaustive(sink);
+    }
     let mut rng = Rng::new(seed ^ 0xFC10);
     let n_ops = if tier == "quick" { 8 } else { 20 };
     for i in 0..count {
